@@ -608,6 +608,8 @@ def aggregate(pid, mod, tier, seed, results, t0, extra=None, replay=False):
     }
     if getattr(mod, "EXHAUSTIVE", False):
         ev["coverage"]["exhaustive"] = True
+    if notes.get("stopped_by_budget_at_case"):
+        ev["coverage"]["stopped_by_budget_at_case"] = sorted(notes["stopped_by_budget_at_case"])
     if extra:
         ev["coverage"].update(extra)
     if not replay:
@@ -638,6 +640,9 @@ def aggregate(pid, mod, tier, seed, results, t0, extra=None, replay=False):
     return 0
 
 
+QUICK_TIMECAP_FLOOR = 150.0
+
+
 def check_main(a):
     t0 = time.time()
     pid = a.id.upper()
@@ -661,6 +666,10 @@ def check_main(a):
         cfg["workers"] = a.workers
     if a.timecap:
         cfg["timecap"] = a.timecap
+    elif tier == "quick":
+        # the module's figure is the wall time it was sized for; the cap only guards against a runaway run, and a
+        # loaded machine must not cut the workload below the monitors' required counts (that would be INCONCLUSIVE)
+        cfg["timecap"] = max(cfg.get("timecap", 60), QUICK_TIMECAP_FLOOR)
     results = spawn_workers(pid, tier, seed, cfg["cases"], cfg.get("workers", 2), cfg.get("timecap", 60), mod=mod)
     extra = None
     if getattr(mod, "ASAN_MODULES", None) and (tier in getattr(mod, "ASAN_TIERS", ("thorough",)) or os.environ.get("VF_ASAN_FORCE")):
